@@ -345,10 +345,24 @@ def r17_3(run):
     f = ix.func(TB + ".element_junction_tuples")
     run.analysed(f)
     w = run.where(f, f.node)
+    r0 = ANF(ix, f, consts={"net": None}).run()
+    # the static class list: the iterable of the {comp.table_name(): comp for comp in [...]} comprehension
     lst = None
-    for n in ast.walk(f.node):
-        if isinstance(n, ast.Assign) and U(n.targets[0]) == "comp_list" and isinstance(n.value, ast.List):
-            lst = [U(e) for e in n.value.elts]
+    special = None
+    for e in r0.events:
+        t = e.term if e.kind == "call" else getattr(e, "value", None)
+        if t is None:
+            continue
+        for x in walk(t):
+            if x[0] == "comp" and x[1] == "DictComp" and x[2][0] == "kv" and x[2][2] == ("b", 0) and len(x[3]) == 1 \
+                    and x[3][0][1][0] in ("list", "tuple"):
+                names = [y[1].split(".")[-1] for y in x[3][0][1][1] if y[0] in ("f", "n", "x")]
+                if len(names) == len(x[3][0][1][1]):
+                    lst = names
+            # the special columns: (el, jn) for el, jn in [("press_control", "controlled_junction"), ...]
+            if x[0] == "comp" and x[1] == "GeneratorExp" and len(x[3]) == 1 and x[3][0][1][0] in ("list", "tuple") \
+                    and all(y[0] == "tuple" and len(y[1]) == 2 and all(z[0] == "c" for z in y[1]) for y in x[3][0][1][1]):
+                special = {tuple(z[1] for z in y[1]) for y in x[3][0][1][1]}
     have = set(lst or [])
     want = {c.name for c in ix.components() if ix.is_subclass(c, "BranchComponent") or ix.is_subclass(c, "NodeElementComponent")}
     run.ob("static-component-list-complete", lst is not None and want <= have,
@@ -356,11 +370,6 @@ def r17_3(run):
            detail="missing: %s" % sorted(want - have))
     from .c16 import reference_columns
     refs = reference_columns(ix)
-    special = set()
-    for n in ast.walk(f.node):
-        if isinstance(n, ast.Assign) and U(n.targets[0]) == "special_elements_junctions" and isinstance(n.value, ast.List):
-            for e in n.value.elts:
-                special.add(tuple(const_str(x) for x in e.elts))
     extra = set()
     for c in ix.components():
         tbl = ix.method_const(c, "table_name")
@@ -368,9 +377,9 @@ def r17_3(run):
         for col, kind in refs.get(tbl, {}).items():
             if kind == "junction" and col not in ft and col != "junction":
                 extra.add((tbl, col))
-    run.ob("special-junction-columns", special == extra,
+    run.ob("special-junction-columns", special is not None and special == extra,
            "the special junction columns of the map equal the schema's extra junction columns: %s" % sorted(extra), w,
-           detail="map: %s" % sorted(special))
+           detail="map: %s" % sorted(special or []))
     ps = f.params()
     _sh("net" in ps, "element_junction_tuples has a net parameter")
     r = ANF(ix, f, consts={"net": None}).run()
